@@ -77,6 +77,22 @@ def build_network(N, topologies, placement, relabel=None):
     el.motif_id = [m for _, _, m in rows]
     el.joint_degrees = list(jds)
     net = EdgeListToNetwork.convert(el)
+    if relabel == "reversed-insertion":
+        # the same annotated network with vertices and edges inserted in the opposite order and every edge given
+        # in the opposite orientation (a different, equally valid, networkx representation)
+        import networkx as nx
+        from gcmpy.network.network import Network
+        G = net.G
+        H = nx.Graph()
+        for n in reversed(list(G.nodes())):
+            H.add_node(n)
+            H.nodes[n].update(G.nodes[n])      # attribute keys are enum members, not strings
+        for u, v, d in reversed(list(G.edges(data=True))):
+            H.add_edge(v, u)
+            H.edges[v, u].update(d)
+        net2 = Network()
+        net2.G = H
+        return net2, jds, rows
     return net, jds, rows
 
 
